@@ -100,6 +100,10 @@ def decode(
     except (TypeError, ValueError):
         raise InvalidPayloadError()
 
+    if not isinstance(claims, dict):
+        # RFC 7519 section 7.2: the message must be a completely valid JSON object
+        raise InvalidPayloadError()
+
     return Token(header, claims)
 
 
